@@ -19,6 +19,7 @@ def sweep_accounting(cfg, R):
     from . import rules_C12
     R.rule('R10', 'sweep: every zone, link and policy of the source is emitted or listed as removed with a reason, not both and not neither', floor=300)
     R.rule('R11', 'sweep: a value the table holds differently from its source line belongs to a zone or policy that carries a note', floor=200)
+    R.rule('R12', 'sweep: every era and rule of the Python tables the compiler writes equals its source line at the granularity the scope keeps', floor=200)
     lib = cxx.load_lib(cfg)
     thorough = cfg.tier == 'thorough'
     runs = (('extended', False), ('basic', False)) + ((('extended', True), ('basic', True)) if thorough else ())
@@ -30,7 +31,7 @@ def sweep_accounting(cfg, R):
         try:
             sw = pipeline.sweep(cfg, scope, strict)
         except pipeline.Raised as r_:
-            for rid in ('R10', 'R11'):          # nothing is emitted, nothing can be read back: both rules fail on this sweep
+            for rid in ('R10', 'R11', 'R12'):          # nothing is emitted, nothing can be read back: both rules fail on this sweep
                 R.instance(rid, 'sweep[%s]:compile' % label, tloc)
                 R.violation(rid, 'sweep[%s]:compile' % label, tloc, '%s' % r_.what)
             continue
@@ -85,6 +86,23 @@ def sweep_accounting(cfg, R):
                 R.violation('R10', c, tloc, '[%s] policy %s is emitted and also listed as removed (%s)' % (label, pol, why))
             elif not emitted and not why:
                 R.violation('R10', c, tloc, '[%s] policy %s is neither emitted nor listed as removed with a reason' % (label, pol))
+        # ---- R12: the Python tables written for the same database, read with the table reader, against the source lines
+        from . import genrender, tables, rules_C20
+        try:
+            pfiles = genrender.generate_files(cfg, 'python', db, max_steps=50000000)
+            P = tables.PyTables(cfg, texts=pfiles)
+        except pipeline.Raised as r_:
+            R.instance('R12', 'sweep[%s]:py:render' % label, tloc)
+            R.violation('R12', 'sweep[%s]:py:render' % label, tloc, 'PythonGenerator raises %s on the sweep' % r_.what)
+            P = None
+        if P is not None:
+            rules_C20.py_entries(R, 'R12', P, 'sweep[%s]:py' % label, delta_gran=900, offset_gran=900 if scope == 'basic' else 60)
+            c = 'sweep[%s]:py:zones' % label
+            R.instance('R12', c, tloc)
+            pz = {P.infos[k]['name'] for k in P.infos}
+            if pz != set(db['zones_map']):
+                R.violation('R12', c, tloc, '[%s] the Python tables define the zones %s, the zone map of the compiler has %s' % (
+                    label, sorted(pz - set(db['zones_map']))[:4], sorted(set(db['zones_map']) - pz)[:4]))
         # ---- R11: altered values carry a note
         rd = rules_C12.EntryReader(lib, scope)
         c = 'sweep[%s]:zone-values' % label
